@@ -65,12 +65,12 @@ C12Match(items, ty) ==
   ELSE IF items = <<>> THEN "no"
   ELSE LET it == Head(items) IN
        CASE it.t = "k" ->
-              IF ty[1].c = it.c /\ ty[1].mm = 0 THEN C12Match(Tail(items), Tail(ty)) ELSE "no"
+              IF StFold(ty[1].c) = StFold(it.c) /\ ty[1].mm = 0 THEN C12Match(Tail(items), Tail(ty)) ELSE "no"
          [] it.t = "m" ->
               LET want == CHOOSE w \in StItemEnc(it) : TRUE
                   n == Len(want)
                   k == C12Min(n, Len(ty))
-              IN IF \A i \in 1..k : ty[i].c + ty[i].mm = want[i]
+              IN IF \A i \in 1..k : StFold(ty[i].c) + ty[i].mm = want[i]
                  THEN IF Len(ty) < n THEN "prefix" ELSE C12Match(Tail(items), SubSeq(ty, n + 1, Len(ty)))
                  ELSE "no"
          [] it.t = "o" ->
@@ -78,9 +78,9 @@ C12Match(items, ty) ==
                   k == C12Min(n, Len(ty))
               \* all keys of the group down before any goes up; the keys typed before the group are up when it
               \* begins (whether a key that is still down counts as part of the chord is not documented: no claim)
-              IN IF /\ \A i \in 1..k : ty[i].c \in StSetOf(it.ks) /\ ty[i].mm = 0 /\ ty[i].h >= i - 1
+              IN IF /\ \A i \in 1..k : StFold(ty[i].c) \in {StFold(x) : x \in StSetOf(it.ks)} /\ ty[i].mm = 0 /\ ty[i].h >= i - 1
                     /\ ty[1].h = 0
-                    /\ Cardinality({ty[i].c : i \in 1..k}) = k
+                    /\ Cardinality({StFold(ty[i].c) : i \in 1..k}) = k
                  THEN IF Len(ty) < n THEN "prefix" ELSE C12Match(Tail(items), SubSeq(ty, n + 1, Len(ty)))
                  ELSE "no"
 
@@ -147,7 +147,7 @@ TyCodes(m) == [i \in DOMAIN m.ty |-> m.ty[i].c]
 HiddenMode(m) == m.p.mode # "visible-backspaced"
 
 LooseAlive(m, ty) ==
-  LET codes == [i \in DOMAIN ty |-> ty[i].c] IN
+  LET codes == [i \in DOMAIN ty |-> StFold(ty[i].c)] IN
   \E k \in DOMAIN codes : \E d \in DOMAIN m.cs : \E e \in m.cs[d] :
      LET s == SubSeq(codes, k, Len(codes)) IN Len(s) <= Len(e) /\ SubSeq(e, 1, Len(s)) = s
 
@@ -196,7 +196,7 @@ C12Leader(m) ==
 
 \* S2, everywhere: a virtual key goes down only for its own sequence
 C12Justified(m, o) ==
-  ~C12S2On(m) \/ \E d \in DOMAIN m.p.defs : m.p.defs[d].out = o /\ (d \in m.owed \/ \E e \in m.cs[d] : C12IsSub(e, m.recent))
+  ~C12S2On(m) \/ \E d \in DOMAIN m.p.defs : m.p.defs[d].out = o /\ (d \in m.owed \/ \E e \in m.cs[d] : C12IsSub(e, [i \in DOMAIN m.recent |-> StFold(m.recent[i])]))
 
 MonTick(m, out, idle, cb) ==
   IF m.err # "" THEN m
